@@ -666,6 +666,11 @@ class Engine:
             for d in fn0.decorator_list:
                 base = d.func if isinstance(d, ast.Call) else d
                 nm = base.id if isinstance(base, ast.Name) else (base.attr if isinstance(base, ast.Attribute) else "?")
+                if nm in (ct.ghost.get("decorators_ok") or {}):
+                    # the contract declares (with a sentence that is listed among the assumptions of the evidence) what it means for the
+                    # decorated function: e.g. lru_cache - the clauses speak about an evaluation of the body; a later call with equal
+                    # arguments gets the remembered answer of such an evaluation
+                    continue
                 if nm not in known:
                     ob = Obligation(f"{ct.cid}:unsupported:decorator {nm}", "unsupported", f"decorator {nm}", [], z3.BoolVal(False), "-")
                     ob.verdict = "undecided"
